@@ -295,6 +295,10 @@ package eventbus
 //@        && (bus.observability == nil ==> ctx == old(ctx))
 //@   loop 1 iter [C01.atmostonce] {C01,C02} dDeliver() + dSpawn() <= 1 && dDeliver() >= 0 && dSpawn() >= 0 && dClaim() >= 0 && dClaim() <= 1
 //@   loop 1 iter [C04.filterFirst] {C04,C01} !filterOK(h, event) ==> dDeliver() + dSpawn() == 0 && dClaim() == 0
+// C07, order half: an asynchronous delivery to a Sequential handler must not be started as an independent
+// goroutine - the goroutines of consecutive publishes contend for the handler's mutex in scheduler order,
+// so nothing fixes the order in which a Sequential handler processes them
+//@   at go:PublishContext$1 check [C07.order] {C07} !h.sequential
 //@   loop 1 iter [C04.gate] {C04} (h.once ==> dDeliver() + dSpawn() <= dClaim()) && (!h.once ==> dClaim() == 0)
 //@   loop 1 iter [C01.async] {C01,C06} filterOK(h, event) && (h.once ==> dClaim() == 1) && h.async && !ctxSeenDone(ctx) ==> dSpawn() == 1 && dDeliver() == 0
 //@   loop 1 iter [C01.sync.live] {C01,C08} filterOK(h, event) && (h.once ==> dClaim() == 1) && !h.async && !ctxSeenDone(ctx) ==> dDeliver() == 1 && dSpawn() == 0
@@ -992,7 +996,7 @@ package eventbus
 // what the property needs: the position saved is the position of the event this
 // call just handled (recordedAt(event): the offset its publish was persisted at).
 // The wrapper has no way to know it: it saves the bus-wide last offset instead.
-//@   at call:SubscriptionStore.SaveOffset assert [C12.live.own] offset == recordedAt(event)
+//@   at call:SubscriptionStore.SaveOffset check [C12.live.own] offset == recordedAt(event)
 //@   ensures [C12.live.ids] cnt(saveOffset) <= 1 && (cnt(saveOffset) == 1 ==> lastarg(saveOffset, 0, Iface) == subStore && lastarg(saveOffset, 2, String) == subscriptionID
 //@        && lastarg(saveOffset, 3, String) == acq(bus.lastOffset))
 //@   ensures [C12.live.monotone] cnt(saveOffset) == 1 ==> lastarg(saveOffset, 3, String) != ""
